@@ -150,6 +150,13 @@ def run(tier, replay=None):
                 for prefill in (0, 1, 2):
                     scns.append(igz.scenario(len(scns), api, inp, level=level, wrap=[0, 1, 3][k % 3], lbuf=[0, 3][k % 2], mem=0, prefill=prefill + 256, calls=calls, tail_ai=0, tail_ao=77, cap=2000, meta={"group": k}))
                 k += 1
+    # ... and of the structure isal_deflate_process_dict fills in (it is an output of that call: what it held before must not matter)
+    dct = igz.corpus(rng, "text", 5000)
+    dinp = dct[-1500:] + igz.corpus(rng, "text", 1500) + dct[:800]
+    for level in range(4):
+        for prefill in (0, 1, 2):
+            scns.append(igz.scenario(len(scns), "deflate", dinp, level=level, wrap=[0, 3][level % 2], lbuf=3, mem=0, prefill=prefill + 256, dictmode=2, dct=dct, calls=[[len(dinp), 1 << 16, 0, 1]], tail_ao=1 << 16, cap=50, meta={"group": k}))
+        k += 1
     tf = igz.run_harness(scns, wd, "prefill")
     recs, summ, by = igz.merge(scns, tf)
     def obsv(i): return [x for c in by[i]["calls"] for x in ([c["ret"], c["c"], c["p"]] + c["out"])]
